@@ -217,7 +217,7 @@ def c18():
                     cc_defs=["LL_MEM_CASES=0,4,8,16,32"]))
     for nl, L in ((0, 12), (1, 12), (1, 19), (1, 20), (1, 28), (2, 28), (2, 36)):
         sl.append(Q(f"readsill_l{nl}_len{L}", "sill.cpp", "vh_readsill", {"NL": nl, "LEN": L}, unwind=8, unwindset={"vh_get_table": L + 2, "vh_bytes": L + 2, "readSill": 6, "findFeatureRef": 3, "lid:ll_malloc_split": 10, "lid:ll_calloc_split": 10, "lid:ll_realloc_split": 10},
-                    cc_defs=["LL_MEM_CASES=0,4,8,32," + ",".join(str(k) for k in sorted({L, 8 + 16 * nl, 16 * nl, 24} - {32}))], timeout=600,
+                    cc_defs=["LL_MEM_CASES=0,4,8,32," + ",".join(str(k) for k in sorted({L, 8 + 16 * nl, 16 * nl, 24} - {32}))], timeout=600 if nl <= 1 else 1700,
                     tiers=("quick", "thorough") if nl <= 1 else ("thorough",)))
     fs = sl + [Q(f"feat_settings_n{n}", "feat.cpp", "vh_feat_settings", {"NSET": n, "NF": 1, "VH_FEATSET": None}, unwind=n + 3, unwindset={"vh_bytes": 4 * n + 2},
             expose=["_ZN12_GLOBAL__N_119readFeatureSettingsEPKhPN9graphite214FeatureSettingEm"], unit_flags={"FeatureMap": ["-fno-inline"]}) for n in (1, 2, 3)]
